@@ -111,7 +111,7 @@ fn gen_abstract_heavy(src: &mut Src) -> rawlib::RLib {
 
 // Each conversion: description (choices) -> (transcript, number of keys in the largest unordered map on the path)
 fn conv_raw_to_gds(src: &mut Src) -> Result<(String, usize), String> {
-    let mut m = if src.bool() { gen_abstract_heavy(src) } else { rawlib::gen_rawlib(src, &RawGenOpts { abstracts: false, pico: true, annotations: false, nets_need_label_purpose: true, nonrect_nets: false, max_cells: 4, closed_polygons: false, abs_only_cells: true, shared_purpose_numbers: false, contact_near_bend: false }) };
+    let mut m = if src.bool() { gen_abstract_heavy(src) } else { rawlib::gen_rawlib(src, &RawGenOpts { abstracts: false, pico: true, annotations: false, nets_need_label_purpose: true, nonrect_nets: false, max_cells: 4, closed_polygons: false, abs_only_cells: true, shared_purpose_numbers: false, contact_near_bend: false, instances_of_abstracts: false }) };
     // a library may be nameless (every LEF import is)
     if src.prob(1, 4) || FORCE_NAMELESS.with(|c| c.get()) {
         m.name = String::new();
@@ -126,7 +126,7 @@ fn conv_raw_to_gds(src: &mut Src) -> Result<(String, usize), String> {
     Ok((t, keys))
 }
 fn conv_raw_to_proto(src: &mut Src) -> Result<(String, usize), String> {
-    let mut m = if src.bool() { gen_abstract_heavy(src) } else { rawlib::gen_rawlib(src, &RawGenOpts { abstracts: true, pico: false, annotations: true, nets_need_label_purpose: false, nonrect_nets: true, max_cells: 4, closed_polygons: false, abs_only_cells: true, shared_purpose_numbers: false, contact_near_bend: false }) };
+    let mut m = if src.bool() { gen_abstract_heavy(src) } else { rawlib::gen_rawlib(src, &RawGenOpts { abstracts: true, pico: false, annotations: true, nets_need_label_purpose: false, nonrect_nets: true, max_cells: 4, closed_polygons: false, abs_only_cells: true, shared_purpose_numbers: false, contact_near_bend: false, instances_of_abstracts: false }) };
     if src.prob(1, 4) || FORCE_NAMELESS.with(|c| c.get()) {
         m.name = String::new();
     }
